@@ -467,3 +467,24 @@ Definition snapshot_exact (M : machine) (hok : list entry -> Prop) : Prop :=
     m_recover M t (m_save M cur (m_prepare M s)) = Some s' -> s' = s.
 Definition any_history (h : list entry) : Prop := True.
 Definition utf8_history (sm : N) (h : list entry) : Prop := forallb (entry_utf8 sm) h = true.
+
+(** * Lookups concurrent with another call (ConcurrentKVTest, DiskKVTest)
+
+    The dragonboat contracts allow Lookup while Update / SaveSnapshot / RecoverFromSnapshot / Close of the same
+    replica run.  The model is sequential; what it contributes is the set of answers such a lookup may give (the
+    oracle of the monitor [conc-lookup] of the correspondence check): the lookup sees the replica before the call,
+    after the call, or - an Update stores the entries of its batch one after the other - after a prefix of the batch.
+    [conc_update_spec]: the state after any prefix [firstn i ents] of a batch answers every lookup with the last
+    value written in the replica's update history extended by that prefix.  (Before / after the call, and the state
+    after a RecoverFromSnapshot, are instances of [lookup_spec].)  That a concurrent lookup does not crash the
+    process, and that it sees no other state, is runtime behaviour the model cannot exhibit: monitors. *)
+Definition conc_update_spec (M : machine) (sm : N) (pre : list op -> Prop) (kok : bytes -> Prop) : Prop :=
+  forall ops s r ents i st k, run M ops = Some s ->
+    m_update M (r_st M (s r)) (firstn i ents) = Some st ->
+    pre (ops ++ [OUpdate r (firstn i ents)]) -> kok k ->
+    m_lookup M st k = last_written sm (hist (m_has_prepare M) ops r ++ firstn i ents) k.
+
+(* the entries of a batch are stored one after the other: when the batch is accepted, so is each of its prefixes
+   (the two in-memory machines; DiskKVTest commits the batch atomically, the views are "before" and "after") *)
+Definition update_prefix_defined (M : machine) : Prop :=
+  forall st ents st' i, m_update M st ents = Some st' -> exists st'', m_update M st (firstn i ents) = Some st''.
